@@ -142,6 +142,17 @@ class MapMonitors:
         return True
 
     def mapping_laws(self, maps, rmaps, size0, sizeN, det):
+        try:
+            return self.mapping_laws_(maps, rmaps, size0, sizeN, det)
+        except core.Violation:
+            raise
+        except Exception as e:  # noqa: BLE001
+            # an exception out of Mapping's list operations on a real history is a verdict, not a
+            # harness error
+            self.violation("C08", "mapping.operation_raised", dict(det, error=repr(e)))
+            return False
+
+    def mapping_laws_(self, maps, rmaps, size0, sizeN, det):
         """list-operation laws and the mirror round trip on a real history of maps"""
         v = self.violation
         n = len(maps)
@@ -383,6 +394,14 @@ class MapMonitors:
         det = {"shape": "translate:" + mode, "maps": [r.t for r in rm], "v1": v1, "v2": v2}
         self.count("C08", ("translate", mode, tuple(tuple(r.t) for r in rm)))
         self.probes["C08.translate:" + mode] += 1
+        try:
+            self.translate_(auth, mode, lo, hi, mid, maps, rm, s0, s1, det, v1, v2)
+        except core.Violation:
+            raise
+        except Exception as e:  # noqa: BLE001
+            self.violation("C08", "mapping.operation_raised", dict(det, error=repr(e)))
+
+    def translate_(self, auth, mode, lo, hi, mid, maps, rm, s0, s1, det, v1, v2):
         if mode == "plain":
             full = Mapping(list(auth.maps[:hi]))
             rfull = refmap.RMapping([self.rmap_of(s) for s in auth.steps[:hi]])
